@@ -37,6 +37,10 @@ FILES = ['/app/main.py', '/app/pkg/<b id=simx>.py', '/app/ünï.py', '/app/a&b.p
          '/app/pkg/run.py', '/app/pkg/./run.py', '/app/pkg//run.py', '/app/pkg/sub/../run.py', 'run.py', '{cwd}/run.py']
 
 
+# "any request path and method": also the methods of HTTP extensions (WebDAV, caches) and unknown ones
+REQ_METHODS = ['GET', 'GET', 'GET', 'POST', 'HEAD', 'PUT', 'DELETE', 'OPTIONS', 'PATCH', 'PROPFIND', 'MKCOL', 'REPORT', 'PURGE', 'M-SEARCH', 'FOO']
+
+
 def resolve_file(f):
     import ast
     import os
@@ -301,7 +305,7 @@ class C20(Check):
                 ops.append({'direct': {'text': rng.choice(['empty', 'none', 'bytes', 'number', 'random-printable', 'non-printable', 'markup',
                                                            'template', 'traceback', 'list']),
                                        'files': rng.choice(['none', 'empty', 'long', 'markup', 'mixed']),
-                                       'requests': [[rng.choice(['GET', 'POST', 'HEAD']), rng.choice(PATHS)]]}})
+                                       'requests': [[rng.choice(REQ_METHODS), rng.choice(PATHS)]]}})
                 continue
             last = i == n - 1
             crash = frng.random() < 0.75
@@ -313,7 +317,7 @@ class C20(Check):
                      'mention': frng.random() < 0.5}
             if child['rc'] == 1 and not child['stderr'] and not child['noise']:
                 child['noise'] = ['boom']
-            fs = {'requests': [[rng.choice(['GET', 'GET', 'POST', 'HEAD']), rng.choice(PATHS)]
+            fs = {'requests': [[rng.choice(REQ_METHODS), rng.choice(PATHS)]
                                for _ in range(rng.randint(1, 3))],
                   'end': 'interrupt' if last else rng.choice(['changed', 'changed', 'interrupt', 'exit5'])}
             ops.append({'child': child, 'failsafe': fs})
